@@ -469,6 +469,17 @@ inproc_ep_connect(void *arg, nni_aio *aio)
 
 	nni_mtx_lock(&nni_inproc.mx);
 
+	// We don't have to worry about the case where a zero timeout
+	// on connect was specified, as there is no option to specify
+	// that in the upper API.
+	// (Start the aio before anything can complete it: a dialer that
+	// has been closed has stopped this aio, and a completion that
+	// bypasses the start would run its callback all the same.)
+	if (!nni_aio_start(aio, inproc_ep_cancel, ep)) {
+		nni_mtx_unlock(&nni_inproc.mx);
+		return;
+	}
+
 	// Find a server.
 	NNI_LIST_FOREACH (&nni_inproc.servers, server) {
 		if (strcmp(server->addr, ep->addr) == 0) {
@@ -478,14 +489,6 @@ inproc_ep_connect(void *arg, nni_aio *aio)
 	if (server == NULL) {
 		nni_mtx_unlock(&nni_inproc.mx);
 		nni_aio_finish_error(aio, NNG_ECONNREFUSED);
-		return;
-	}
-
-	// We don't have to worry about the case where a zero timeout
-	// on connect was specified, as there is no option to specify
-	// that in the upper API.
-	if (!nni_aio_start(aio, inproc_ep_cancel, ep)) {
-		nni_mtx_unlock(&nni_inproc.mx);
 		return;
 	}
 
